@@ -113,7 +113,16 @@ example : (run Skeleton.current init [⟨0, .linkStart⟩, ⟨1, .linkStart⟩])
       ((run Skeleton.current s [⟨0, .setupRegister⟩, ⟨1, .setupRegister⟩]).map fun t => (t.links 1).id)
         = some (some 1))) = some true := by decide
 
+/-- M4's per-link components (writer, pending-call table, error slot) are exactly what a call made for a
+    link uses.  For the closure invocations a handler makes that holds because the `CallClosure` stub is
+    built per invocation from the parameters of the link whose request is being served (checked against
+    the regenerated skeleton) — a stub cached in registry-wide state would route every later link's closure
+    invocations to the first link's peer, and let that link's failure fail them. -/
+theorem C13_closure_invocations_use_their_own_link : Skeleton.current.pxClosureIdPerInvocation = true := by decide
+
 end Panrpc.Rg
+
+#print axioms Panrpc.Rg.C13_closure_invocations_use_their_own_link
 
 #print axioms Panrpc.Rg.C13_identity_consistent
 #print axioms Panrpc.Rg.C13_ids_distinct
